@@ -410,12 +410,20 @@ func judgePipe(res *Result, pc interface{}, calls []specCall, lines [][]byte, da
 	for i := 0; i < n; i++ {
 		c := &calls[i]
 		o := &obs[i]
-		if !errOK(c.Err, o.ErrClass) {
+		errBad := !errOK(c.Err, o.ErrClass)
+		if errBad {
 			res.violation(mk("C07", "err", fmt.Sprintf("call %d: error class: spec %q, code %q (%v)", i+1, c.Err, o.ErrClass, o.Err), c.Err, o.ErrClass))
+		}
+		ok, prop, want, got := cmp(i, c, o)
+		if errBad && prop != "C07" {
+			// printed dumps / race reports: whether the text is an error is part of its fidelity
+			res.violation(mk(prop, "err", fmt.Sprintf("call %d: error class: spec %q, code %q (%v)", i+1, c.Err, o.ErrClass, o.Err), c.Err, o.ErrClass))
+		}
+		if !ok {
+			res.violation(mk(prop, "snapshot", fmt.Sprintf("call %d: snapshot differs", i+1), want, got))
 			return
 		}
-		if ok, prop, want, got := cmp(i, c, o); !ok {
-			res.violation(mk(prop, "snapshot", fmt.Sprintf("call %d: snapshot differs", i+1), want, got))
+		if errBad {
 			return
 		}
 		okCall := false
